@@ -33,6 +33,10 @@ pub struct Probe {
     pub rx_dud_count: u64,
     pub ack_queue_len: usize,
     pub rto_ms: Option<u64>,
+    /// limits in force on this half connection (as negotiated by the handshake)
+    pub tx_alloc_limit: usize,
+    pub rx_alloc_limit: usize,
+    pub tx_rate_limit: u32,
 }
 
 thread_local! {
